@@ -147,6 +147,10 @@ func (g *Gates) Sleep(d time.Duration) {
 }
 
 func (g *Gates) at(point string, id any) {
+	if point == "log" { // every debug statement of the library is a yield point named after its format string
+		f, _ := id.(string)
+		point, id = "log:"+f, ""
+	}
 	g.mu.Lock()
 	if !g.mode[point] || g.pass {
 		g.mu.Unlock()
